@@ -20,7 +20,7 @@ REQUIRED_THEOREMS = ['CfVerif.C13.' + t for t in (
     'fp16_exact', 'fp16_signed_arg', 'fp16_live_counterexample',
     'quat_roundtrip', 'quat_model_is_compressR', 'quat_fields_roundtrip', 'quat_errors',
     'coordinate_error_lt_one', 'yaw_error_lt_one', 'start_packs_or_raises', 'element_packs_or_raises',
-    'led_rgb565', 'led_monotone', 'led_black_white', 'led_timing_colour',
+    'led_rgb565', 'led_monotone', 'led_black_white', 'led_timing_rgb565', 'led_timing_monotone', 'led_timing_black_white',
     'range_report_decodes', 'range_report_distinct', 'lh_angle_decodes', 'incoming_malformed',
     'gen_quat_compress', 'gen_quat_decompress', 'gen_trajectory', 'gen_units', 'gen_led', 'gen_incoming', 'gen_lh_angle')]
 EXHAUSTIVE = True      # the half-float decoder and the LED mapping are checked on their whole (finite) domains, every run
@@ -1260,10 +1260,30 @@ def search(ctx):
         want = (table[(r8, i)][0], table[(g8, i)][1], table[(b8, i)][2])
         if (w >> 11, (w >> 5) & 63, w & 31) != want or len(raw) != 24:
             ctx.witness('led-mix', 'mixed colour is not the combination of its channels', {'rgb': [r8, g8, b8], 'intensity': i}, got=w, want=want)
+    # the timings driver (no intensity) must satisfy the same clauses on its own
+    ttab = {}
+    for c in range(256):
+        rt = real_ledt([(1, c, c, c, 0, 0, 0)])
+        raw = bytes.fromhex(rt[3:]) if rt.startswith('ok ') else b''
+        if len(raw) != 8 or raw[0] != 1:
+            ctx.witness('ledt-raises', 'LED timings write_data did not produce one entry + terminator', {'level': c}, got=rt)
+            continue
+        w = (raw[1] << 8) | raw[2]
+        ttab[c] = (w >> 11, (w >> 5) & 63, w & 31)
+    for c, f in sorted(ttab.items()):
+        if c == 0 and f != (0, 0, 0):
+            ctx.witness('ledt-black', 'timings driver: black does not map to 0', {'level': c}, got=f)
+        if c == 255 and f != (31, 63, 31):
+            ctx.witness('ledt-white', 'timings driver: white is not full scale', {'level': c}, got=f)
+        if c > 0 and c - 1 in ttab and any(a < b for a, b in zip(f, ttab[c - 1])):
+            ctx.witness('ledt-monotone', 'timings driver: RGB565 channel decreases when the 8-bit level increases', {'level': c}, got=f, below=ttab[c - 1])
+    for _ in range(60):
+        r8, g8, b8 = rng.randrange(256), rng.randrange(256), rng.randrange(256)
         rt = real_ledt([(1, r8, g8, b8, 0, 0, 0)])
-        full = (table[(r8, 100)][0] << 11) | (table[(g8, 100)][1] << 5) | table[(b8, 100)][2]
-        if rt != 'ok ' + bytes([1, full >> 8, full & 255, 0, 0, 0, 0, 0]).hex():
-            ctx.witness('ledt-colour', 'timings driver encodes a different RGB565 word', {'rgb': [r8, g8, b8]}, got=rt, want=full)
+        if all(k in ttab for k in (r8, g8, b8)):
+            full = (ttab[r8][0] << 11) | (ttab[g8][1] << 5) | ttab[b8][2]
+            if rt != 'ok ' + bytes([1, full >> 8, full & 255, 0, 0, 0, 0, 0]).hex():
+                ctx.witness('ledt-mix', 'timings driver: mixed colour is not the combination of its channels', {'rgb': [r8, g8, b8]}, got=rt, want=full)
 
     # (5) range reports / lighthouse angle stream: decode what an (independent) device-side encoder produced
     def f32v(bits):
